@@ -263,4 +263,115 @@ theorem replayCallsB_byteBudget (n : Nat) (tr : List Str × Outcome XotError Uni
   · rw [if_pos h, if_pos h]
   · rw [if_neg h, if_neg h]
 
+/-! ### The bridge to the character-level writer -/
+
+/-- Cutting the bytes of a text after `k` bytes: the whole characters that fit, then a proper prefix (at most 3
+    bytes) of the next character's encoding — empty if there is no next character. -/
+theorem utf8_take (c : Str) (k : Nat) :
+    ∃ tail, (utf8 c).take k = utf8 (c.take (wholeChars c k)) ++ tail ∧ tail.length ≤ 3 ∧
+      (c.drop (wholeChars c k) = [] → tail = []) ∧
+      (∀ ch rest, c.drop (wholeChars c k) = ch :: rest → ∃ more, more ≠ [] ∧ utf8Char ch = tail ++ more) := by
+  induction c generalizing k with
+  | nil => exact ⟨[], by simp [utf8, wholeChars], by simp, by simp, by simp [wholeChars]⟩
+  | cons ch cs ih =>
+    by_cases hfit : (utf8Char ch).length ≤ k
+    · obtain ⟨tail, h1, h2, h3, h4⟩ := ih (k - (utf8Char ch).length)
+      refine ⟨tail, ?_, h2, ?_, ?_⟩
+      · simp only [utf8, wholeChars, if_pos hfit, List.take_succ_cons, List.append_assoc]
+        rw [List.take_append, List.take_of_length_le hfit, h1]
+      · simpa only [wholeChars, if_pos hfit, List.drop_succ_cons] using h3
+      · simpa only [wholeChars, if_pos hfit, List.drop_succ_cons] using h4
+    · have hlen := utf8Char_length_le ch
+      refine ⟨(utf8Char ch).take k, ?_, ?_, ?_, ?_⟩
+      · simp only [utf8, wholeChars, if_neg hfit, List.take_zero, List.nil_append]
+        rw [List.take_append]
+        have : k - (utf8Char ch).length = 0 := by omega
+        rw [this]; simp
+      · rw [List.length_take]; omega
+      · simp [wholeChars, if_neg hfit]
+      · intro ch' rest h
+        simp only [wholeChars, if_neg hfit, List.drop_zero, List.cons.injEq] at h
+        obtain ⟨rfl, _⟩ := h
+        refine ⟨(utf8Char ch).drop k, ?_, (List.take_append_drop k _).symm⟩
+        intro h0
+        have := congrArg List.length h0
+        simp only [List.length_drop, List.length_nil] at this
+        omega
+
+/-- **The bridge to the character level.**  The byte-level writer `B` and the character-level writer `B.chars`
+    accept the same calls and refuse the same call; at a refusal `B` holds the `utf8` of the characters `B.chars`
+    holds, followed by at most 3 bytes (a proper prefix of the next character). -/
+theorem writeCallsB_chars (B : BytePolicy) (hist : List Str) (cs : List Str) :
+    (∀ h, writeCalls B.chars hist cs = .ok h → writeCallsB B (hist.map utf8) cs = .ok (h.map utf8)) ∧
+    (∀ b, writeCalls B.chars hist cs = .error b →
+      ∃ tail, writeCallsB B (hist.map utf8) cs = .error (utf8 b ++ tail) ∧ tail.length ≤ 3) := by
+  induction cs generalizing hist with
+  | nil =>
+    simp only [writeCalls, writeCallsB]
+    exact ⟨fun h hh => (by injection hh with hh; rw [hh]), fun b hb => (by cases hb)⟩
+  | cons c cs ih =>
+    simp only [writeCalls, writeCallsB, BytePolicy.chars]
+    cases hp : B (hist.map utf8) (utf8 c) with
+    | none =>
+      simp only []
+      have := ih (hist ++ [c])
+      simp only [List.map_append, List.map_cons, List.map_nil] at this
+      exact this
+    | some k =>
+      simp only []
+      refine ⟨fun h hh => (by cases hh), fun b hb => ?_⟩
+      injection hb with hb
+      obtain ⟨tail, h1, h2, _⟩ := utf8_take c k
+      refine ⟨tail, ?_, h2⟩
+      rw [← hb, utf8_append, utf8_flatten, h1, List.append_assoc]
+
+theorem replayCallsB_chars (B : BytePolicy) (tr : List Str × Outcome XotError Unit) :
+    (replayCallsB B [] tr).2 = (replayCalls B.chars [] tr).2 ∧
+    ∃ tail, (replayCallsB B [] tr).1 = utf8 (replayCalls B.chars [] tr).1 ++ tail ∧ tail.length ≤ 3 ∧
+      ((replayCallsB B [] tr).2 ≠ .err .io → tail = []) := by
+  have hb := writeCallsB_chars B [] tr.1
+  simp only [List.map_nil] at hb
+  unfold replayCallsB replayCalls
+  cases hw : writeCalls B.chars [] tr.1 with
+  | ok h =>
+    rw [hb.1 h hw]
+    exact ⟨rfl, [], by simp [utf8_flatten], by simp, fun _ => rfl⟩
+  | error b =>
+    obtain ⟨tail, h1, h2⟩ := hb.2 b hw
+    rw [h1]
+    exact ⟨rfl, tail, rfl, h2, fun h => absurd rfl h⟩
+
+/-! ### The two ways a replay ends -/
+
+/-- Either one call is refused — the calls split into accepted ones, the refused one (`some k`) and calls never
+    made; the outcome is `Io` and the writer holds the accepted calls' bytes followed by the first `k` bytes of
+    the refused call — or none is, and the replay is the trace: all its bytes, its own end. -/
+theorem replayCallsB_cases (B : BytePolicy) (tr : List Str × Outcome XotError Unit) :
+    (∃ pre c post k, tr.1 = pre ++ c :: post ∧ writeCallsB B [] pre = .ok (pre.map utf8) ∧
+        B (pre.map utf8) (utf8 c) = some k ∧
+        writeCallsB B [] tr.1 = .error (utf8 pre.flatten ++ (utf8 c).take k) ∧
+        replayCallsB B [] tr = (utf8 pre.flatten ++ (utf8 c).take k, .err .io)) ∨
+    (writeCallsB B [] tr.1 = .ok (tr.1.map utf8) ∧ replayCallsB B [] tr = (utf8 tr.1.flatten, tr.2)) := by
+  unfold replayCallsB
+  cases hw : writeCallsB B [] tr.1 with
+  | error b =>
+    left
+    obtain ⟨pre, c, post, k, h1, h2, h3, h4⟩ := (writeCallsB_error_iff B [] tr.1 b).1 hw
+    simp only [List.nil_append] at h2 h3 h4
+    rw [← utf8_flatten] at h4
+    exact ⟨pre, c, post, k, h1, h2, h3, by rw [h4], by rw [h4]⟩
+  | ok h =>
+    right
+    have hh := writeCallsB_ok B _ _ _ hw
+    rw [List.nil_append] at hh
+    subst hh
+    exact ⟨rfl, by rw [utf8_flatten]⟩
+
+/-- The sink of a replay is a prefix of the `utf8` of the trace's text. -/
+theorem replayCallsB_prefix_utf8 (B : BytePolicy) (tr : List Str × Outcome XotError Unit) :
+    ∃ rest, utf8 tr.1.flatten = (replayCallsB B [] tr).1 ++ rest := by
+  obtain ⟨rest, h⟩ := replayCallsB_prefix B [] tr
+  rw [List.nil_append, ← utf8_flatten] at h
+  exact ⟨rest, h⟩
+
 end XotModel
